@@ -213,7 +213,9 @@ func (g *PG) trace() {
 	}
 	g.w("println(%s)\n", strings.Join(args, ", "))
 	if g.r.Intn(4) == 0 && !g.inFunc {
-		g.w("println(\"TF\", halfF(%s)/2, wrapB(%s)+10, halfF(1)/KB, wrapB(2)+KA*30)\n", g.intExpr(1), g.intExpr(1))
+		g.w("println(\"TF\", halfF(%s)/2, wrapB(%s)+10, halfF(1)/KB, wrapB(2)+KA*30, scaleP(3), scaleP(KA), fwd(%s, 2, 3))\n", g.intExpr(1), g.intExpr(1), g.intExpr(1))
+		// two calls from the same stack height: the second frame starts where the first one was
+		g.w("if true {\nsa := staleA()\nsb := staleB()\nsc := staleA()\nprintln(\"stale\", sa, sb, sc, staleB())\n}\n")
 		g.f("typed-const-results")
 	}
 }
@@ -583,16 +585,22 @@ func (g *PG) stmt(depth int) {
 	}
 }
 
-// GenProgram returns a program and the set of features it uses.
-func GenProgram(r *RNG, depth int) (GoProg, map[string]bool) {
-	g := &PG{r: r, budget: 45, feat: map[string]bool{}}
+// prelude writes the declarations every generated program starts with (constants, the struct type T with its
+// methods, helper functions of the shapes that once showed a defect); the expression and trace generators use them
+func (g *PG) prelude() {
 	g.w("const KA = 7\n\nconst KB = KA*2 + 1\n\nconst (\n\t_ = iota\n\tKC\n\tKD\n)\n\nfunc blanks(n int) int {\n\tconst (\n\t\t_ = iota * 10\n\t\tk1\n\t\t_\n\t\tk3\n\t)\n\tconst _ = 7\n\treturn n*k3 + k1\n}\n\nfunc cok(m map[string]int) int {\n\tv, _ := m[\"a\"]\n\t_, ok := m[\"zz\"]\n\tif ok {\n\t\treturn -1\n\t}\n\treturn v\n}\n\nfunc idx(k int) int {\n\tprintln(\"idx\", k)\n\treturn k %% 3\n}\n\nvar fuel = 80\n\nvar gacc = 0\n\ntype T struct {\n\tA int\n\tB int\n}\n\nfunc (t *T) Sum(k int) int {\n\treturn t.A + t.B*k\n}\n\nfunc (t *T) Inc() {\n\tt.A++\n\tt.B += 2\n}\n\nfunc (t *T) Vsum(k int, xs ...int) int {\n\ts := t.A * k\n\tfor _, x := range xs {\n\t\ts += x\n\t}\n\treturn s + len(xs)\n}\n\n")
 	g.w("func add(a int, b int) int {\n\treturn a + b\n}\n\nfunc isOdd(a int) bool {\n\treturn a%%2 != 0\n}\n\n")
 	g.w("func pair2(a int, b int) (int, int) {\n\treturn b, a + 1\n}\n\nfunc tri(a int) (int, int, int) {\n\treturn a, a + 1, a + 2\n}\n\n")
 	// results of other types than the parameters, returned as untyped constants: they take the result type
 	g.w("func halfF(n int) float64 {\n\tif n > 100000 {\n\t\treturn 3\n\t}\n\treturn 1\n}\n\nfunc wrapB(n int) byte {\n\treturn 250\n}\n\nfunc (t *T) Ratio() float64 {\n\treturn 3\n}\n\n")
 	// a parameter of another type than the untyped constant argument, in a function with locals of its own; a result that is one spread call
-	g.w("func scaleP(x float64) float64 {\n\ty := x / 2\n\tz := y\n\treturn z\n}\n\nfunc sumv(xs ...int) int {\n\ts := 0\n\tfor _, x := range xs {\n\t\ts += x\n\t}\n\treturn s\n}\n\nfunc fwd(xs ...int) int {\n\treturn sumv(xs...)\n}\n\n")
+	g.w("func scaleP(x float64) float64 {\n\ty := x / 2\n\tz := y\n\treturn z\n}\n\nfunc staleA() float64 {\n\ta := 1.5\n\tvar b byte = 9\n\tc := a * 2\n\tvar d uint32 = 7\n\treturn c + float64(b) + float64(d)\n}\n\nfunc staleB() int {\n\th := 7\n\tw := 300\n\tk := h / 2\n\tm := 5\n\treturn k + w + m/2\n}\n\nfunc sumv(xs ...int) int {\n\ts := 0\n\tfor _, x := range xs {\n\t\ts += x\n\t}\n\treturn s\n}\n\nfunc fwd(xs ...int) int {\n\treturn sumv(xs...)\n}\n\n")
+}
+
+// GenProgram returns a program and the set of features it uses.
+func GenProgram(r *RNG, depth int) (GoProg, map[string]bool) {
+	g := &PG{r: r, budget: 45, feat: map[string]bool{}}
+	g.prelude()
 	nh := r.Intn(3)
 	for h := 0; h < nh; h++ {
 		g.w("func h%d(p int) int {\n", h)
